@@ -999,7 +999,11 @@ func checkCodec(r *kit.Run, family string) {
 			}
 		}
 		r.Add("json_validity_cases", len(invalidJSON)+len(validJSON))
-		checkJSONText(r)
+		checkJSONText(r, false)
+	}
+	if family == "yaml" {
+		// "any JSON document fed to the YAML decoder denotes the same data": the JSON scalar grammar again
+		checkJSONText(r, true)
 	}
 	// canary: the comparison must notice a changed string, number kind and key order
 	a := dval{Kind: "obj", Keys: []string{"a", "b"}, Items: []dval{{Kind: "str", S: "1"}, {Kind: "num", Num: "1.0"}}}
